@@ -23,6 +23,7 @@ CONSTANTS
   GENBAL = 9
   FAILBUDGET = 2
   FRESH = FALSE
+  WANTED = {}
   PREFUND = 5
   PREDEL = 0
   EVENTS = {"Deposit","Delegate","Undelegate","EndBlock","ReleaseHold"}
